@@ -761,6 +761,11 @@ def _decorate_inline(context, fn):
         def go(*args, **kw):
             return dec(context, *args, **kw)
 
+        try:
+            # a def inside <%call> is exported to the callee by its name
+            go.__name__ = render_fn.__name__
+        except (AttributeError, TypeError):
+            pass
         return go
 
     return decorate_render
